@@ -25,6 +25,9 @@ def Mat.at (D : Mat) (i c : Nat) : Int := (D.get i).get c
 /-- constant array (`a[:] = v`) -/
 def Arr.const {α} (n : Nat) (v : α) : Arr α := { get := fun _ => v, size := n }
 
+/-- the array holding the entries of a list (`d` beyond its end) -/
+def Arr.ofList {α} (l : List α) (d : α) : Arr α := { get := fun i => l.getD i d, size := l.length }
+
 /-- `a[i] = v` -/
 def upd {α} (f : Arr α) (i : Nat) (v : α) : Arr α :=
   { get := fun x => if x = i then v else f.get x, size := f.size }
@@ -402,6 +405,19 @@ structure Best where
   inertia : Rat
   iter : Int
 
+def Best.inertiaOf : Option Best → Rat
+  | some b => b.inertia
+  | none => 0
+def Best.iterOf : Option Best → Int
+  | some b => b.iter
+  | none => 0
+
+/-- `if best_inertia is None or inertia < best_inertia: best_... = ...` -/
+def updateBest (best : Option Best) (lab' : Arr Nat) (inertia : Rat) (iter' : Int) : Option Best :=
+  if C07.better best.isNone inertia (Best.inertiaOf best) then
+    some { lab := lab', inertia := inertia, iter := iter' }
+  else best
+
 /-- returns `(best, iter)`; `none` = an association failed or the recorded iterations are exhausted -/
 def outerLoop {α} (assoc : Arr Nat → α → Option (Arr Nat)) (maxIter : Int) :
     List (α × Rat) → Arr Nat → Int → Option Best → Option (Option Best × Int)
@@ -412,13 +428,8 @@ def outerLoop {α} (assoc : Arr Nat → α → Option (Arr Nat)) (maxIter : Int)
       | none => none
       | some lab' =>
         let iter' := C07.iterNext iter
-        let bestNone := best.isNone
-        let bi := match best with | some b => b.inertia | none => 0
-        let best' : Option Best :=
-          if C07.better bestNone inertia bi then some { lab := lab', inertia := inertia, iter := iter' } else best
-        let bi' := match best' with | some b => b.inertia | none => 0
-        let bit' := match best' with | some b => b.iter | none => 0
-        if C07.earlyStop best'.isNone inertia bi' iter' bit' then some (best', iter')
+        let best' := updateBest best lab' inertia iter'
+        if C07.earlyStop best'.isNone inertia (Best.inertiaOf best') iter' (Best.iterOf best') then some (best', iter')
         else outerLoop assoc maxIter rest lab' iter' best'
     else some (best, iter)
 
